@@ -69,3 +69,13 @@ def relation(facts, a, b):
     if ("<=", b, a) in fs:
         return ">="
     return None
+
+
+def every_iteration(fn, L, node):
+    """does `node` execute on every path through one iteration of loop L (no `if`, `continue`, `break` can bypass it)?
+    Returns True / False, or None when the loop's paths cannot be enumerated."""
+    hdr, plist = loop_body_paths(fn, L)
+    pos = fn.cfg.pos1(node)
+    if not plist or pos is None:
+        return None
+    return all(pos[0] in p[1:] for p in plist)
